@@ -1156,6 +1156,51 @@ fn c10_commit_tokens() {
     std::mem::forget((w, tok, ctx));
 }
 
+/// C10: the text of a `<url>` source / target goes through the escaping writer with its exact
+/// value.  The URLs are concrete (iri-string's validator over symbolic text is out of reach): one
+/// without and one with the XML metacharacters that are legal in a URI (`&`, `'`).
+fn url_ctx() -> Context {
+    let schemes: Vec<Box<str>> = vec!["http".into()];
+    let server = crate::capabilities::verif_caps::capabilities_from_slots([
+        Some(Capability::Base(Base::V1_0)),
+        Some(Capability::Url(schemes)),
+        None, None, None, None, None, None, None, None, None, None, None, None,
+    ]);
+    let client = crate::capabilities::verif_caps::capabilities_from_slots([
+        Some(Capability::Base(Base::V1_0)),
+        None, None, None, None, None, None, None, None, None, None, None, None, None,
+    ]);
+    Context::new(SessionId::new(7).unwrap(), Base::V1_0, client, server)
+}
+
+fn url_text_is_escaped(url: &'static str) {
+    let ctx = url_ctx();
+    wlog::reset_log();
+    let mut w = quick_xml::Writer::new(Vec::new());
+    let ok = match new_decomposed::<DeleteConfig, _>(&ctx, |b| b.url(url)?.finish()) {
+        Ok(op) => op.write_xml(&mut w).is_ok(),
+        Err(()) => false,
+    };
+    assert!(ok, "C10 url: delete-config with a valid http URL could not be built / written");
+    let (carried, raw) = carried_escaped(url, false);
+    assert!(!raw, "C10 url: URL written through the raw path");
+    assert!(carried, "C10 url: URL does not reach the message as escaped text with its exact value");
+    kani::cover!(ok, "written");
+    std::mem::forget((w, ctx));
+}
+
+#[kani::proof]
+#[kani::unwind(50)]
+fn c10_url_plain() {
+    url_text_is_escaped("http://h/c")
+}
+
+#[kani::proof]
+#[kani::unwind(50)]
+fn c10_url_with_metacharacters() {
+    url_text_is_escaped("http://h/?a&b='c'")
+}
+
 /// C10: Junos `<open-configuration>` instance name, `<commit-configuration>` log message and
 /// the XPath `select` attribute of a `<get-config>` filter.
 #[cfg(feature = "junos")]
